@@ -198,3 +198,60 @@ Theorem c04_code_reason_parser_consistent : forall body obj subtype,
 Proof. exact reason_parser_consistent. Qed.
 Print Assumptions c04_code_reason_parser_consistent.
 
+(* ---- the two element parsers AS TRANSLATED, the iterator's next inlined: for every tag buffer whose first element fits, with only the buffer readable, the do-while loop visits exactly
+   the Spec's maximal chain of elements (elements buf), each once, in order - an element with an empty body does not stop it - and hands each handler the address and length of that
+   element's body; the channel is the first octet of the last DS (/ HT operation) element with a body; a non-zero answer of the RSN / Microsoft handler ends the walk with -EINVAL at that
+   element.  sta_events, bss_events, chan_of, first_fits, it_initial are defined in Proofs/CodeTagParse.v.  (Translator artefact, stated there: a call in the right operand of && is
+   recorded as if made unconditionally - bss_memcmp_event_inside_refuted.) ---- *)
+From Coq Require Import String.
+From LW Require Import Base.Bytes Base.CExpr Gen.Sites Spec.CodeSpec Spec.TagSpec Model.TagIter Proofs.CodeTagParse.
+Local Open Scope string_scope.
+Local Open Scope list_scope.
+Local Open Scope Z_scope.
+
+Theorem c04_code_sta_tag_parser_walk : forall buf p rho F,
+  wfbytes buf -> 0 < p -> p + zlen buf < 2 ^ 62 ->
+  first_fits buf -> it_initial rho p buf ->
+  (40 + List.length (elements buf) <= F)%nat ->
+  exists rho',
+    exec F (mem_at p buf) rho [] body_libwifi_sta_tag_parser =
+      Returned (Some 0) rho' (flat_map (sta_events p (rho "sta") (rho "&sta->channel")) (elements buf)) /\
+    rho' "sta->channel" = fold_left (chan_of buf false) (elements buf) (rho "sta->channel").
+Proof. exact code_sta_tag_parser_walk. Qed.
+Print Assumptions c04_code_sta_tag_parser_walk.
+
+Theorem c04_code_bss_tag_parser_walk : forall buf p rho F,
+  wfbytes buf -> 0 < p -> p + zlen buf < 2 ^ 62 ->
+  first_fits buf -> it_initial rho p buf ->
+  wrap (mkty true 32) (rho "ret:libwifi_bss_handle_rsn_tag") = 0 ->
+  wrap (mkty true 32) (rho "ret:libwifi_bss_handle_msft_tag") = 0 ->
+  (44 + List.length (elements buf) <= F)%nat ->
+  exists rho',
+    exec F (mem_at p buf) rho [] body_libwifi_bss_tag_parser =
+      Returned (Some 0) rho'
+        (flat_map (bss_events p (rho "bss") (rho "&bss->channel") (rho "str:\x00P\xf2") (rho "ret:memcmp")) (elements buf)) /\
+    rho' "bss->channel" = fold_left (chan_of buf true) (elements buf) (rho "bss->channel").
+Proof. exact code_bss_tag_parser_walk. Qed.
+Print Assumptions c04_code_bss_tag_parser_walk.
+
+Theorem c04_code_bss_tag_parser_rejects : forall buf p rho F (pre : list elem) (e : elem) (post : list elem),
+  wfbytes buf -> 0 < p -> p + zlen buf < 2 ^ 62 ->
+  first_fits buf -> it_initial rho p buf ->
+  (44 + List.length (elements buf) <= F)%nat ->
+  let fails := bss_fails (rho "ret:libwifi_bss_handle_rsn_tag") (rho "ret:libwifi_bss_handle_msft_tag") (rho "ret:memcmp") in
+  let events := bss_events p (rho "bss") (rho "&bss->channel") (rho "str:\x00P\xf2") (rho "ret:memcmp") in
+  elements buf = (pre ++ e :: post)%list -> forallb (fun x => negb (fails x)) pre = true -> fails e = true ->
+  exists rho',
+    exec F (mem_at p buf) rho [] body_libwifi_bss_tag_parser =
+      Returned (Some (-22)) rho' (flat_map events pre ++ events e)%list /\
+    rho' "bss->channel" = fold_left (chan_of buf true) pre (rho "bss->channel").
+Proof. exact code_bss_tag_parser_rejects. Qed.
+Print Assumptions c04_code_bss_tag_parser_rejects.
+
+Theorem c04_code_tag_parsers_visit_model_walk : forall buf,
+  wfbytes buf -> first_fits buf ->
+  iterate (rd_strict buf) (zlen buf) = Done (Ok (elements buf)) /\
+  elements buf <> [] /\ Forall (genuine buf) (elements buf) /\ contiguous 0 (elements buf).
+Proof. exact code_tag_parsers_visit_model_walk. Qed.
+Print Assumptions c04_code_tag_parsers_visit_model_walk.
+
